@@ -170,6 +170,14 @@ void c19_split_join(pbt::Source& src) {
         char sep = SEPS[src.range(0, 5)];
         std::string alphabet = std::string(1, sep) + sep + "ab" + std::string(1, '\0') + "/";
         std::string str = gen_main(src, alphabet, src.chance(24) ? 40 : 12, 5000, HUGE_OK);
+        if (long_mode() && src.chance(10)) { // about 65536 fields (either side of it): nearly every byte is a separator
+            size_t n = 65400 + (size_t)src.range(0, 700);
+            size_t rate = (size_t)1 << src.range(9, 14);
+            Rng rng(src.bits(4));
+            str.clear();
+            for (size_t i = 0; i < n; ++i) str += rng.one_in(rate) ? alphabet[rng.below(alphabet.size())] : sep;
+            label_len(n);
+        }
         fix_args(std::string(1, sep), str);
         Buf sb(str);
         std::vector<std::string> want = ref_split(std::string(1, sep), str, limit);
